@@ -8,14 +8,16 @@ from shadow import loader, engine as E, concretize as C, timeenv, stubs, floats 
 from shadow.values import (SymSeq, SymInt, SymBool, U8, Hx, b_and, b_not, b_or, b_implies, bterm, i_eq, i_ite, sym_eq,
                            unit_eq, mk_bool)
 
-ROWS = None
+ROWS = {}
+TIER = ["quick"]
 
 
 def rows_of(zone):
-    global ROWS
-    if ROWS is None:
-        ROWS = timeenv.build_zone_table()
-    return [r for r in ROWS if r["zone"] == zone]
+    """quick tier: transitions 2024-2026; thorough: 2024-2037 (constant stretches reach 2105 in both)"""
+    y1 = 2026 if TIER[0] == "quick" else 2037
+    if y1 not in ROWS:
+        ROWS[y1] = timeenv.build_zone_table(y1=y1)
+    return [r for r in ROWS[y1] if r["zone"] == zone]
 
 
 def zone_of(path, m, rows):
@@ -159,6 +161,7 @@ def _cmp_c11(exp, o):
 
 def main_c11(tier):
     t0 = time.time()
+    TIER[0] = tier
     zones = timeenv.ZONES if tier == "thorough" else ["UTC", "Asia/Jerusalem", "Australia/Lord_Howe", "America/St_Johns",
                                                       "Pacific/Kiritimati", "Pacific/Pago_Pago", "Asia/Kathmandu"]
     cases = [{"kind": "roundtrip", "zone": z} for z in zones]
@@ -169,7 +172,7 @@ def main_c11(tier):
     H.finish("C11", tier, "model_checking", results, t0,
              rule="per zone one symbolic run: 4 free digits of a valid HH:MM, clock instant free inside the zone row's window, zone row a "
                   "solver variable over the tz table; rejection: free ASCII text of n characters (all split/parse paths)",
-             bounds={"zones": zones, "zone table": "every transition 2024-2037 +-2 days and every constant stretch up to 2105",
+             bounds={"zones": zones, "zone table": "every transition 2024-%d +-2 days and every constant stretch up to 2105" % (2026 if tier == "quick" else 2037),
                      "free text": "0..%d ASCII characters" % maxn, "outside": "non-ASCII digits, zones outside the table"},
              assumptions=["glibc mktime/localtime implement the tz table (zone contract, DESIGN 3.5); DST-gap times are pruned, folds allow either instant",
                           "CPython's strptime accepts exactly the language of its compiled pattern for %d/%m/%Y %H:%M"],
@@ -274,6 +277,7 @@ def c13_replay(path, m, info, rows, dayidx, oracle):
 
 def main_c13(tier):
     t0 = time.time()
+    TIER[0] = tier
     if tier == "thorough":
         zones = timeenv.ZONES
         cases = [{"zone": z, "mask": mk} for z in zones for mk in range(128)]
@@ -288,7 +292,7 @@ def main_c13(tier):
              rule="per (zone, day set): start HH:MM (4 free digits), clock instant and zone row symbolic; the returned text is compared "
                   "with the earliest-occurrence rule evaluated on the LOCAL weekday and minute of the clock read",
              bounds={"day sets": "all 128" if tier == "thorough" else "all 128 for two zones, 8 representative sets for four more",
-                     "zone table": "transitions 2024-2037 +-2 days, constant stretches to 2105"},
+                     "zone table": "transitions 2024-%d +-2 days, constant stretches to 2105" % (2026 if tier == "quick" else 2037)},
              assumptions=["zone contract of DESIGN 3.5"],
              technique="SHADOW symbolic execution of the real Python source + z3 QF_BV over a symbolic zone row",
              witness_checked=nw, exhaustive_splits=(tier == "thorough"),
